@@ -31,7 +31,10 @@ FORMS = [("raw", "num"), ("raw", "array"), ("raw", "bool"), ("raw", "str"),
          ("ds", "cube213"), ("ds", "dict"), ("raw", "dict"),
          ("ds", "iarray"), ("ds", "num"), ("ds", "array"),
          ("ds", "bool"), ("ds", "str"), ("ds", "dataset"), ("df", "num"),
-         ("df", "str")]
+         ("df", "str"),
+         # crops of a Runner (reaped into its description of the outputs)
+         ("runner", "num"), ("runner", "str"), ("runner", "bool"),
+         ("runner", "array"), ("runner", "mat23")]
 
 
 def cases(tier, seed):
@@ -168,31 +171,6 @@ def check_case(case):
     def key(sym):
         return "C09|%s|%s|%s|%s" % (form, kind, mode, sym)
 
-    # (a handle made before anything was sown - by name only - is used for
-    # the partial reap later on)
-    early = xyz.Crop(name="k", parent_dir=d) if core.pick(
-        [N, mode, req, sub, form, "early"], 4) == 0 and not case.get("live") \
-        else None
-    if case["shuffle"] and core.pick([N, mode, req, sub, "ctor"], 3) == 0:
-        # (a shuffle given to the constructor only; the sow call leaves its
-        # own option at the default)
-        crop = xyz.Crop(fn=f, name="k", parent_dir=d, shuffle=True,
-                        **{mode: req})
-        crop.sow_combos(combos, verbosity=0)
-    else:
-        crop = xyz.Crop(fn=f, name="k", parent_dir=d, **{mode: req})
-        crop.sow_combos(combos, shuffle=case["shuffle"], verbosity=0)
-    B = crop.num_batches
-    have = set()
-    if case.get("live"):
-        crop.num_results, crop.missing_results(), crop.is_ready_to_reap()
-    with xfn.CallLog() as log:
-        for i in sub:
-            grow(i, crop=(xyz.Crop(name="k", parent_dir=d)
-                          if case.get("live") else crop), verbosity=0)
-    have = set(log.encs())
-    before = fsseam.tree_hash(d)
-
     dskw = {}
     if kind in ("array", "iarray"):
         dskw = dict(var_names="out", var_dims={"out": ["t"]},
@@ -205,6 +183,32 @@ def check_case(case):
         dskw = dict(var_names=None)
     else:
         dskw = dict(var_names="out")
+
+    mk = (lambda **kw: xyz.Crop(farmer=xyz.Runner(f, **dskw), **kw)) \
+        if form == "runner" else (lambda **kw: xyz.Crop(fn=f, **kw))
+    # (a handle made before anything was sown - by name only - is used for
+    # the partial reap later on)
+    early = xyz.Crop(name="k", parent_dir=d) if core.pick(
+        [N, mode, req, sub, form, "early"], 4) == 0 and not case.get("live") \
+        else None
+    if case["shuffle"] and core.pick([N, mode, req, sub, "ctor"], 3) == 0:
+        # (a shuffle given to the constructor only; the sow call leaves its
+        # own option at the default)
+        crop = mk(name="k", parent_dir=d, shuffle=True, **{mode: req})
+        crop.sow_combos(combos, verbosity=0)
+    else:
+        crop = mk(name="k", parent_dir=d, **{mode: req})
+        crop.sow_combos(combos, shuffle=case["shuffle"], verbosity=0)
+    B = crop.num_batches
+    have = set()
+    if case.get("live"):
+        crop.num_results, crop.missing_results(), crop.is_ready_to_reap()
+    with xfn.CallLog() as log:
+        for i in sub:
+            grow(i, crop=(xyz.Crop(name="k", parent_dir=d)
+                          if case.get("live") else crop), verbosity=0)
+    have = set(log.encs())
+    before = fsseam.tree_hash(d)
 
     def shapes(x):
         try:
@@ -226,7 +230,7 @@ def check_case(case):
                 # (the handle was copied before it was ever used)
                 import copy
                 c = copy.deepcopy(c)
-        if form == "raw":
+        if form in ("raw", "runner"):
             return c.reap(**kw)
         if form == "ds":
             return c.reap_combos_to_ds(**dskw, **kw)
